@@ -167,3 +167,47 @@ func VerifC19Box() {
 
 // VerifSealedMessage: the i-th message handed to the cipher.
 func VerifSealedMessage(i int) []byte { return VerifSealLog[i].m }
+
+// VerifC19Sequence: over a long sequence of encryptions of the same value
+// under the same key, every stored value starts with a nonce that was freshly
+// drawn for that encryption: with a random source that never repeats a
+// 24-byte block, no two stored values are equal. (Sequence length N: nonce
+// caches and pools only show beyond their size.)
+func VerifC19Sequence() {
+	VerifAEADInstall(vBytes)
+	// a random source whose output never repeats: a running counter spread over the bytes
+	ctr := uint64(0)
+	drawn := 0
+	VCall_io_ReadFull = func(r io.Reader, buf []byte) (int, error) {
+		for i := range buf {
+			if i%8 == 0 {
+				ctr++
+			}
+			buf[i] = byte(ctr >> (8 * uint(i%8)))
+		}
+		drawn += len(buf)
+		return len(buf), nil
+	}
+	key := make([]byte, 32)
+	key[0] = vU8("key0")
+	vAssume(key[0] != 0)
+	msg := []byte{7}
+	N := vParam("N")
+	seen := map[string]int{}
+	for i := 0; i < N; i++ {
+		stored, err := EncryptWithKey(msg, key)
+		vAssert(err == nil && len(stored) >= 24, "encryption fails in a long sequence")
+		if err != nil || len(stored) < 24 {
+			return
+		}
+		nonce := string(stored[:24])
+		if j, dup := seen[nonce]; dup {
+			_ = j
+			vAssert(false, "two encryptions of the same value in one sequence carry the same nonce although the random source never repeats")
+			return
+		}
+		seen[nonce] = i
+	}
+	vReach("sequence-done")
+	vAssert(drawn >= 24*N, "fewer than 24 fresh random bytes were drawn per encryption")
+}
